@@ -339,6 +339,15 @@ func fmtCases(format string, keys []string, thorough bool, emit func(rc recCase)
 			variants(rc)
 		}
 	}
+	// L6b: an anonymous child of a named logger (all formats): the logger field is the name the child reports
+	for _, attrs := range [][]attrNode{nil, {leaf("k", "int:-1")}} {
+		rc := base
+		rc.Layer = "L6b-anonymous-child"
+		rc.Named = true
+		rc.NameQ = recAnonChild
+		rc.Attrs = attrs
+		emit(rc)
+	}
 	// L6: logger names are string-like values too
 	if format != "color" {
 		for _, nm := range []string{`api" role="admin`, "a\nb", `a\b`, "a b", "é\u2028", "a\xffb", "a\x1b[31mb", "a\tb\x01", `","level":"panic`, "k=v"} {
